@@ -27,7 +27,8 @@ ASSUMPTIONS = ['model written from XML Schema Part 2 2nd edition; where 1st ed./
                'DatatypeValidator::compare cannot express "indeterminate" (DateTimeValidator::compare maps it to -1): for model-indeterminate pairs only "not equal" is asserted',
                'decimal second witness: fractions.Fraction; double second witness: CPython float(); base64 second witness: base64 module',
                'known findings are excluded by construction (excluded_known) and kept as witnesses under regress-known/C09']
-BUDGET = {'quick': 240, 'thorough': 2600}
+BUDGET = {'quick': 520, 'thorough': 5000}
+if os.environ.get('C09_DEV_BUDGET'): BUDGET = {'quick': int(os.environ['C09_DEV_BUDGET']), 'thorough': int(os.environ['C09_DEV_BUDGET'])}    # sensitivity runs on a loaded machine only
 WALLCAP = {'quick': 500, 'thorough': 2700}
 
 CORE_TYPES = ['decimal'] + list(D.INT_RANGES) + ['boolean', 'float', 'double', 'dateTime', 'date', 'time', 'hexBinary', 'base64Binary', 'string', 'normalizedString', 'token']
@@ -45,6 +46,7 @@ def known_class(tn, proc, lane='builtin'):
     if lane == 'builtin' and root in ('dateTime', 'date') and re.match(r'-[0-9]{4,}-', proc): return 'C09-negative-year-canonical'
     if lane == 'builtin' and root in ('float', 'double') and proc in ('INF', '-INF', 'NaN'): return 'C09-xsvalue-special-literals' 
     if D.PRIM.get(root) == 'decimal' and re.match(r'[+-]?\.\Z', proc): return 'C09-decimal-lone-point'
+    if root in ('float', 'double') and re.match(r'[+-]?\.(?:[eE][+-]?[0-9]+)?\Z', proc): return 'C09-decimal-lone-point'
     if D.PRIM.get(root) == 'decimal' and root != 'decimal' and re.match(r'[+-]?[0-9]*\.[0-9]*\Z', proc) and not D.RE_DECIMAL.match(proc) : return 'C09-decimal-lone-point'
     if root == 'hexBinary' and any(ord(c) >= 0xFF for c in proc): return 'C09-hexbin-decode-oob'
     if lane == 'builtin' and root == 'dateTime' and re.search(r'T24:00:00(\.0+)?(Z|[+-][0-9:]*)?\Z', proc): return 'C09-datetime-hour24-canonical'
@@ -162,7 +164,8 @@ def check_actual(tn, val, proc, a_status, a_val):
             if v.clamped:
                 want = {'-inf': 0, 'inf': 1, 'num': 3}[v.kind]
                 return None if enum == want else 'clamped value: expected enum %d got %s' % (want, a_val)
-            return None
+            want = {'-inf': 0, 'inf': 1, 'nan': 2}[v.kind]           # only reached when replaying the witness of C09-xsvalue-special-literals
+            return None if enum == want else 'special literal: expected DoubleFloatType %d, got %s (Normal with value 0)' % (want, a_val)
         if enum != 4: return 'finite in-range literal reported as converted: %s' % a_val
         mask = 0x7FFFFFFF if k == 'float' else 0x7FFFFFFFFFFFFFFF
         if (bits & mask) != (float_bits(k, v) & mask): return 'float bits %s != expected %X' % (a_val, float_bits(k, v))
@@ -207,7 +210,7 @@ def check_canonical(tn, val, proc, can, who, note=None, exact=True):
     except D.Unsure:
         mc = None
     if mc is not None and mc != can:
-        if who == 'DatatypeValidator' and tn not in DTV_CANON and can == proc:
+        if who == 'DatatypeValidator' and tn not in DTV_CANON and can == proc and not D.KNOWN_OFF:
             # known finding: the base-class implementation returns the input unchanged (hexBinary, base64Binary)
             if note is not None: note.excluded['C09-dtv-canonical-identity'] = note.excluded.get('C09-dtv-canonical-identity', 0) + 1
             return None
@@ -260,7 +263,9 @@ def check_builtin(case, ex, note):
         lab2 = list(lab) + ['type:' + tn, 'model:' + {True: 'valid', False: 'invalid', None: 'unsure'}[ok]]
         where = '%s literal %r (processed %r)' % (tn, raw, proc)
         blank = proc.strip(' \t\n\r') == ''
-        clamped = ok is True and D.PRIM[tn] in ('float', 'double') and info.v.clamped
+        fcl = ok is True and D.PRIM[tn] in ('float', 'double') and info.v.kind == 'num' and info.v.fr != 0 and re.match(r'[+-]?0*\.0', proc) is not None
+        if fcl and not case.get('noexclude'): note.excluded['C09-float-canonical-small-mantissa'] = note.excluded.get('C09-float-canonical-small-mantissa', 0) + 1
+        clamped = (ok is True and D.PRIM[tn] in ('float', 'double') and info.v.clamped) or (fcl and not case.get('noexclude'))
         # (iv) pure differential
         if ok is None and info == 'signed-zero-in-sign-restricted-integer' and not case.get('noexclude'):
             note.excluded['C09-xsvalue-negative-zero'] = note.excluded.get('C09-xsvalue-negative-zero', 0) + 1; continue
@@ -449,6 +454,7 @@ def check_derived(case, ex, note):
     return True, 'ok'
 
 def check_case(case, ex, note):
+    D.KNOWN_OFF = bool(case.get('noexclude'))
     try:
         if case['lane'] == 'builtin': return check_builtin(case, ex, note)
         if case['lane'] == 'order': return check_order(case, ex, note)
@@ -490,8 +496,9 @@ def order_case(draw, ntriples):
 
 FACET_BASES = ['decimal', 'integer', 'int', 'short', 'unsignedByte', 'positiveInteger', 'long', 'float', 'double', 'dateTime', 'date', 'time', 'hexBinary', 'base64Binary',
                'string', 'normalizedString', 'token', 'boolean', 'gYear', 'gYearMonth', 'duration', 'NCName', 'language']
-PATTERNS = {'decimal': ['[0-9]+', '-?[0-9]+\\.[0-9][0-9]', '\\d{1,3}', '[+-]?[0-9.]*'], 'string': ['[a-c]*', '[a-zA-Z0-9 ]*', '.{0,3}', '[^ ]*'],
-            'hexBinary': ['[0-9A-F]*', '([0-9a-f][0-9a-f]){2}'], 'boolean': ['true|false', '[01]'], 'dateTime': ['.*Z', '[^Z]*', '2.*'], 'float': ['[0-9]+', '[^eE]*', '.*E.*']}
+# patterns avoid '.', whose treatment of U+2028/U+0085 belongs to the regular-expression property (C11)
+PATTERNS = {'decimal': ['[0-9]+', '-?[0-9]+\\.[0-9][0-9]', '\\d{1,3}', '[+-]?[0-9.]*'], 'string': ['[a-c]*', '[a-zA-Z0-9 ]*', '[^#]{0,3}', '[^ ]*'],
+            'hexBinary': ['[0-9A-F]*', '([0-9a-f][0-9a-f]){2}'], 'boolean': ['true|false', '[01]'], 'dateTime': ['[^#]*Z', '[^Z]*', '2[^#]*'], 'float': ['[0-9]+', '[^eE]*', '[^#]*E[^#]*']}
 
 def _nudge_decimal(lit, delta_units):
     try: v = D.parse_decimal(lit)
@@ -551,7 +558,7 @@ def derived_case(draw, nlits):
         pk = kind if kind in PATTERNS else ('decimal' if kind == 'decimal' else 'string' if kind == 'string' else None)
         if bt in D.RE_DT: pk = 'dateTime'
         if kind == 'double': pk = 'float'
-        facets['pattern'] = draw(st.sampled_from(PATTERNS.get(pk, ['.*', '.{0,4}', '[^ ]*'])))
+        facets['pattern'] = draw(st.sampled_from(PATTERNS.get(pk, ['[^#]*', '[^#]{0,4}', '[^ ]*'])))
     else:
         facets['whiteSpace'] = draw(st.sampled_from(['replace', 'collapse'] if bt == 'string' else ['collapse']))
     defs = [{'k': 'R', 'name': 'T1', 'base': bt, 'facets': facets, 'enums': enums}]
@@ -566,7 +573,7 @@ def derived_case(draw, nlits):
     lits = pool + [(l, lab + flabel) for l, lab in extra]
     if shape == 'chain':
         cand = [l for l, _ in lits if D.verdict(T1, l, safe_pattern_match)[0] is True]
-        if cand:
+        if cand and bt != 'boolean':
             defs.append({'k': 'R', 'name': 'T2', 'base': 'T1', 'facets': {}, 'enums': [draw(st.sampled_from(cand))]}); target = 'T2'
     elif shape in ('list', 'listR'):
         defs.append({'k': 'L', 'name': 'L1', 'item': 'T1'}); target = 'L1'
@@ -610,7 +617,9 @@ def case_strategy(tier):
 def flush(note, stats):
     for h, nt, labels in note.rows: stats.note(h, nt, labels)
     d = stats.extra.setdefault('unsure_classes', {})
-    for k, v in note.unsure.items(): d[k] = d.get(k, 0) + v
+    for k, v in note.unsure.items():
+        if k.startswith('known:'): stats.excluded_known[k[6:]] += v
+        else: d[k] = d.get(k, 0) + v
     for k, v in note.excluded.items(): stats.excluded_known[k] += v
     for s in note.samples:
         lst = stats.extra.setdefault('refused_definitions', [])
